@@ -29,7 +29,11 @@ known nor followable fails closed.  So extracting validation into a private help
 it back) leaves the chain unchanged.
 
 The meaning of the tests that become guards and of the calls that become validators is fixed by
-the tables below (the trusted part, like the primitive table of pyz).
+the tables below (the trusted part, like the primitive table of pyz).  The keys of the validator
+table are PUBLIC validators and the forecaster protocol (`self._set_fh`, `self.check_is_fitted`);
+the private validation helpers (`_check_forecasters`, `_check_steps`, the strategy / scitype name
+checks) are found by role through the call graph (roles_c20.py), whatever they are called.  Calls
+are compared in a canonical argument form (keyword vs positional does not matter).
 """
 import ast
 import copy
@@ -176,14 +180,6 @@ def v_check_fh(c, ctx):
     return "(VCheckFh %s %s)" % (src, _cb(_const(kw.get("enforce_relative"), False)))
 
 
-def v_split_check_fh(c, ctx):
-    # _split.py: _check_fh(fh) = check_fh(fh, enforce_relative=True)  (checked by `pins`)
-    a = [ast.unparse(x) for x in c.args]
-    if a != ["self.fh"] or c.keywords:
-        raise Unsupported("arguments in " + ast.unparse(c))
-    return "(VCheckFh FhSelf true)"
-
-
 def v_check_cv(c, ctx):
     a = [ast.unparse(x) for x in c.args]
     kw = _kw(c, ("enforce_start_with_window",))
@@ -223,12 +219,6 @@ def v_name(term, name):
     return h
 
 
-def v_windows_fit(c, ctx):
-    if [ast.unparse(x) for x in c.args] != ["y", "fh", "window_length", "initial_window"] or c.keywords:
-        raise Unsupported("arguments in " + ast.unparse(c))
-    return "VWindowsFit"
-
-
 VALIDATORS = {
     "check_y_X": v_check_y_X, "check_y": v_check_y, "check_X": v_check_X,
     "check_equal_time_index": v_equal_index,
@@ -242,21 +232,25 @@ VALIDATORS = {
                                                     "window_length": "WWindow"}),
     "check_sp": v_attr("VCheckSp", {"self.sp": ""}),
     "check_cutoffs": v_attr("VCheckCutoffs", {"self.cutoffs": ""}),
-    "self._check_forecasters": v_noargs("VForecasters"),
-    "self._check_steps": v_noargs("VSteps"),
-    "_infer_scitype": v_name("VInferScitype", "estimator"),
 }
 # per source file: names that mean something else there
 VALIDATORS_BY_FILE = {
-    "sktime/forecasting/model_evaluation/_functions.py": {
-        "_check_strategy": v_name("VEvalStrategy", "strategy")},
-    "sktime/forecasting/compose/_reduce.py": {
-        "_check_strategy": v_name("VReduceStrategy", "strategy"),
-        "_check_scitype": v_name("VScitype", "scitype"),
-        "_check_fh": None},                                    # asserts only (pinned below)
     "sktime/forecasting/model_selection/_split.py": {
         "check_time_index": v_name("VTimeIndex", "y")},
 }
+# private validation helpers: found by role (roles_c20: call graph from the public entry point),
+# whatever they are called in the tree at hand.  (label, receiver prefix, file or None = any, event)
+ROLE_VALIDATORS = [
+    ("_check_forecasters", "self.", None, v_noargs("VForecasters")),
+    ("_check_steps", "self.", None, v_noargs("VSteps")),
+    ("_infer_scitype", "", "sktime/forecasting/compose/_reduce.py",
+     v_name("VInferScitype", "estimator")),
+    ("eval._check_strategy", "", "sktime/forecasting/model_evaluation/_functions.py",
+     v_name("VEvalStrategy", "strategy")),
+    ("reduce._check_strategy", "", "sktime/forecasting/compose/_reduce.py",
+     v_name("VReduceStrategy", "strategy")),
+    ("_check_scitype", "", "sktime/forecasting/compose/_reduce.py", v_name("VScitype", "scitype")),
+]
 CHECKLIKE = re.compile(r"(^|\.)(_?check_\w*|_set_fh|_set_y_X|_update_y_X|_update_X|check_is_fitted"
                        r"|_infer_scitype|_set_cutoff)$")
 
@@ -288,6 +282,7 @@ class Ctx:
         self.src = src
         self.x_given = x_given
         self.mods = {}
+        self.roles = None
 
     def mod(self, src):
         if src not in self.mods:
@@ -298,6 +293,12 @@ class Ctx:
     def validators(self):
         v = dict(VALIDATORS)
         v.update(VALIDATORS_BY_FILE.get(self.src, {}))
+        if self.roles is None:
+            from .roles_c20 import Roles
+            self.roles = Roles(self.repo, self.mods)
+        for label, prefix, src, h in ROLE_VALIDATORS:
+            if src is None or src == self.src:
+                v[prefix + self.roles.name[label]] = h
         return v
 
 
@@ -489,6 +490,7 @@ class Chain:
                                       else None)
         ctx2 = Ctx(self.ctx.repo, src, self.ctx.x_given)
         ctx2.mods = self.ctx.mods
+        ctx2.roles = self.ctx.roles
         sub = Chain(ctx2, dict(self.cfg, blocks=(), _stack=stack + (fn.name,), cls=cls,
                                cls_src=self.cfg.get("cls_src", self.ctx.src)))
         try:
@@ -513,6 +515,7 @@ class Chain:
                 raise Unsupported("%s: helper call %s" % (self.cfg["path"], ast.unparse(call)))
             ctx2 = Ctx(self.ctx.repo, src, opts.get("x_given", self.ctx.x_given))
             ctx2.mods = self.ctx.mods
+            ctx2.roles = self.ctx.roles
             sub = Chain(ctx2, dict(path=hpath, fh_property=self.cfg.get("fh_property", True)))
             sub.walk(find(self.ctx.mod(src), hpath).body, list(path))
             for p, a in sub.events:
@@ -522,6 +525,7 @@ class Chain:
             if vals[u] is None:
                 return None
             call2 = self.subst_temps(call)        # `cv_fh = cv.fh; check_fh(cv_fh)`
+            call2 = self.canonical(call2)         # keyword / positional argument forms
             for a in list(call2.args) + [k.value for k in call2.keywords]:
                 self.clean(a, "the arguments of " + u)
             self.emit(path, "(AChk %s)" % vals[u](call2, self.ctx))
@@ -535,6 +539,27 @@ class Chain:
         if CHECKLIKE.search(u) and st == "fail":
             raise Unsupported("%s: unknown validator %s" % (self.cfg["path"], u))
         return None
+
+    def canonical(self, call):
+        """The call with its arguments in the canonical form (roles_c20.canonical_call), if the
+        callee's definition can be found; otherwise unchanged (the handlers then fail closed on
+        anything but the plain form)."""
+        from .roles_c20 import Tree, canonical_call
+        f = call.func
+        d = None
+        if isinstance(f, ast.Name):
+            r = Tree(self.ctx.repo, self.ctx.mods).function_def(self.ctx.src, f.id)
+            if r is not None:
+                d = (r[1], False)
+        elif isinstance(f, ast.Attribute) and isinstance(f.value, ast.Name) and f.value.id == "self":
+            r = self.resolve_helper(f)
+            if r is not None:
+                d = (r[1], r[2])
+        if d is None or d[0].decorator_list and not all(
+                ast.unparse(x) == "staticmethod" for x in d[0].decorator_list):
+            return call
+        c = canonical_call(call, d[0], d[1])
+        return call if c is None else c
 
     def _followable(self, call):
         return self.resolve_helper(call.func) is not None
@@ -825,18 +850,17 @@ class Chain:
 
 
 def _naive_block(stmts):
-    units = [ast.unparse(s) for s in stmts]
-    if "self._set_fh(fh)" in units and "self._is_fitted = True" in units:
-        a, b = units.index("self._set_fh(fh)"), units.index("self._is_fitted = True")
-        return stmts[a + 1:b]
+    from .roles_c20 import is_flag_set, is_self_call
+    a = [i for i, s in enumerate(stmts) if is_self_call(s, "_set_fh")]
+    b = [i for i, s in enumerate(stmts) if is_flag_set(s, "_is_fitted")]
+    if len(a) == 1 and len(b) == 1 and a[0] < b[0]:
+        return stmts[a[0] + 1:b[0]]
     return None
 
 
 def _aggfunc_block(stmts):
-    for i, s in enumerate(stmts):
-        if isinstance(s, ast.Assign) and ast.unparse(s.targets[0]) == "valid_aggfuncs":
-            return stmts[i:i + 2]
-    return None
+    from .roles_c20 import setting_check
+    return setting_check(stmts, "aggfunc")
 
 
 SK = "sktime/forecasting/base/_sktime.py"
@@ -898,10 +922,11 @@ def render(events):
     return "[ " + ";\n    ".join(out) + " ]"
 
 
-def extract(repo, cfg, mods=None):
+def extract(repo, cfg, mods=None, roles=None):
     ctx = Ctx(repo, cfg["src"])
     if mods is not None:
         ctx.mods = mods
+    ctx.roles = roles
     ch = Chain(ctx, cfg)
     fn = find(ctx.mod(cfg["src"]), cfg["path"])
     if not isinstance(fn, ast.FunctionDef):
@@ -915,9 +940,11 @@ def translate(repo):
     ctx = Ctx(repo, SK)
     ctx.mods = mods
     check_pins(ctx)
+    from .roles_c20 import Roles
+    roles = Roles(repo, mods)
     out = [HEADER]
     for cfg in ENTRIES:
-        ev = extract(repo, cfg, mods)
+        ev = extract(repo, cfg, mods, roles)
         out.append("(* %s : %s *)" % (cfg["src"], cfg["path"]))
         out.append("Definition gen_chain_%s : list gev :=\n  %s.\n" % (cfg["coq"], render(ev)))
     out.append("Definition gen_chain_of (e : entry) : list gev :=\n  match e with\n%s\n  end.\n" % "\n".join(
